@@ -23,6 +23,7 @@
 //  Includes
 // ---------------------------------------------------------------------------
 #include <xercesc/util/regx/RangeTokenMap.hpp>
+#include <xercesc/util/XercesVerifHooks.hpp>
 #include <xercesc/util/regx/RangeToken.hpp>
 #include <xercesc/util/regx/RegxDefs.hpp>
 #include <xercesc/util/regx/TokenFactory.hpp>
@@ -123,6 +124,7 @@ RangeToken* RangeTokenMap::getRange(const XMLCh* const keyword,
 
     if (!rangeTok)
     {
+        XERCES_VERIF_POINT(LazyEnter, elemMap, VerifHooks::SiteRangeLookup, 0);
         XMLMutexLock lockInit(&fMutex);
 
         // make sure that it was not created while we were locked
